@@ -323,4 +323,177 @@ theorem mem_of_lookup {α β : Type} [BEq α] [LawfulBEq α] (l : List (α × β
       rw [this] at h
       exact List.mem_cons_of_mem _ (ih h)
 
+/-! ### more dict facts -/
+
+theorem get_set_same (m : Dict) (k : Str) (v : PyV) : Dict.get? (Dict.set m k v) k = some v := by
+  induction m with
+  | nil => simp [Dict.set, Dict.get?]
+  | cons x r ih =>
+    obtain ⟨a, b⟩ := x
+    unfold Dict.set
+    by_cases h : a = k
+    · subst h; simp [Dict.get?]
+    · have h1 : (a == k) = false := by simpa using h
+      have h2 : (k == a) = false := by simpa using (fun h' : k = a => h h'.symm)
+      simp only [h1, Bool.false_eq_true, if_false]
+      simp only [Dict.get?, List.lookup_cons, h2] at ih ⊢
+      exact ih
+
+theorem get_set_ne (m : Dict) (k k' : Str) (v : PyV) (h : k ≠ k') :
+    Dict.get? (Dict.set m k v) k' = Dict.get? m k' := by
+  induction m with
+  | nil =>
+    have : (k' == k) = false := by simpa using (fun h' : k' = k => h h'.symm)
+    simp [Dict.set, Dict.get?, List.lookup, this]
+  | cons x r ih =>
+    obtain ⟨a, b⟩ := x
+    unfold Dict.set
+    by_cases ha : a = k
+    · subst ha
+      have : (k' == a) = false := by simpa using (fun h' : k' = a => h h'.symm)
+      simp [Dict.get?, List.lookup_cons, this]
+    · have h1 : (a == k) = false := by simpa using ha
+      simp only [h1, Bool.false_eq_true, if_false]
+      simp only [Dict.get?, List.lookup_cons] at ih ⊢
+      cases (k' == a) <;> simp [ih]
+
+theorem multiT2A_eos (eos : Str) (m : Dict) (h : m ≠ []) :
+    Dict.get? (multiNumInc (multiSetEos eos m)) kEos = some (.str eos) := by
+  have h1 : m.isEmpty = false := by cases m <;> simp_all
+  have h2 : (multiSetEos eos m).isEmpty = false := by
+    unfold multiSetEos
+    rw [h1]
+    simp only [Bool.false_eq_true, if_false]
+    have := set_ne_nil m kEos (.str eos)
+    cases hh : Dict.set m kEos (.str eos) with
+    | nil => exact absurd hh this
+    | cons _ _ => rfl
+  unfold multiNumInc
+  rw [h2]
+  simp only [Bool.false_eq_true, if_false]
+  rw [get_set_ne _ _ _ _ (by decide)]
+  unfold multiSetEos
+  rw [h1]
+  simp only [Bool.false_eq_true, if_false]
+  exact get_set_same _ _ _
+
+theorem newLineq_type (ty : Int) : Dict.get? (newLineq ty) kType = some (.int ty) := by
+  simp [newLineq, lineqKeys, Dict.get?, kType]
+
+theorem lineqTypeOf_mem (v : PyV) (ty : Int) (h : lineqTypeOf v = .ok ty) : ty ∈ lineqTypes := by
+  have h0 : lineqTypes.getD 0 0 ∈ lineqTypes := by decide
+  unfold lineqTypeOf at h
+  cases v with
+  | none => cases h
+  | str s => cases h
+  | int i =>
+    simp only at h
+    split at h
+    · rename_i hr
+      have := Except.ok.inj h
+      subst this
+      have hlt : i.toNat < lineqTypes.length := by omega
+      have : lineqTypes.getD i.toNat 0 = lineqTypes[i.toNat] := by
+        simp [List.getD_eq_getElem?_getD, List.getElem?_eq_getElem hlt]
+      rw [this]
+      exact List.getElem_mem _
+    · have := Except.ok.inj h
+      subst this; exact h0
+  | num q =>
+    simp only at h
+    split at h
+    · cases h
+    · have := Except.ok.inj h
+      subst this; exact h0
+
+theorem ljust_append_ne_nil (s e : Str) : (ljust s 10 ++ e).isEmpty = false := by
+  cases s with
+  | nil => simp [ljust, List.replicate]
+  | cons a r => simp [ljust]
+
+/-! ### connection lines -/
+
+theorem writeCons_con (l : List Item) (h : ∀ it ∈ l, ∃ a b, it = .con a b) :
+    writeCons l = some (l.map fun it => match it with | .con a b => (a, b) | _ => ([], [])) := by
+  induction l with
+  | nil => rfl
+  | cons x r ih =>
+    obtain ⟨a, b, rfl⟩ := h x (List.mem_cons_self ..)
+    have := ih (fun it hi => h it (List.mem_cons_of_mem _ hi))
+    unfold writeCons at this ⊢
+    simp [List.mapM_cons, this, conLine]
+
+theorem readCons_writeCons (blocks : List Str) (cons : List (Str × Str)) (l : List Item) (hb : blocks ≠ [])
+    (h : ∀ it ∈ l, ∃ a b, it = .con a b ∧ (a, b) ∈ cons) :
+    ∃ lines, writeCons l = some lines ∧ readCons blocks cons lines = l := by
+  refine ⟨_, writeCons_con l (fun it hi => let ⟨a, b, hn, _⟩ := h it hi; ⟨a, b, hn⟩), ?_⟩
+  unfold readCons
+  have hne : blocks.isEmpty = false := by cases blocks <;> simp_all
+  simp only [hne, Bool.false_eq_true, if_false]
+  induction l with
+  | nil => rfl
+  | cons y s ih =>
+    obtain ⟨a, b, rfl, hm⟩ := h y (List.mem_cons_self ..)
+    have := ih (fun it hi => h it (List.mem_cons_of_mem _ hi))
+    simp only [List.map_cons, List.filter_cons]
+    have hc : cons.contains (a, b) = true := by simpa using hm
+    simp only [hc, if_true, List.map_cons]
+    rw [this]
+
+/-! ### rocks -/
+
+theorem scaleRocks_fields (rs : List Rock) :
+    (scaleRocks rs).map (·.name) = rs.map (·.name) ∧ (scaleRocks rs).map (·.porosity) = rs.map (·.porosity) ∧
+    (scaleRocks rs).map (·.payload) = rs.map (·.payload) ∧
+    (scaleRocks rs).map (·.conductivity) = rs.map (fun r => r.conductivity * (1 - r.porosity)) := by
+  simp [scaleRocks, List.map_map, Function.comp_def]
+
+/-! ### SIMUL goes to the front -/
+
+theorem insert_SIMUL (secs : List Str) (h : SIMUL ∉ secs) : insertSectionL secs SIMUL = SIMUL :: secs := by
+  unfold insertSectionL
+  have : secs.contains SIMUL = false := by simpa using h
+  rw [this]
+  simp only [Bool.false_eq_true, if_false]
+  have hi : sectionInsertionIndex secs SIMUL = 0 := by
+    unfold sectionInsertionIndex
+    have : sections.findIdx? (· == SIMUL) = some 0 := by decide
+    rw [this]
+    rfl
+  rw [hi]
+  simp [listInsert]
+
+
+/-! ### decidable forms of "every item is an object of the grid" -/
+
+/-- every item is a `t2block` of the grid -/
+def allGridBlocks (blocks : List Str) (l : List Item) : Bool :=
+  l.all fun it => match it with | .blk n => blocks.contains n | _ => false
+
+/-- every item is a `t2connection` of the grid -/
+def allGridCons (cons : List (Str × Str)) (l : List Item) : Bool :=
+  l.all fun it => match it with | .con a b => cons.contains (a, b) | _ => false
+
+theorem allGridBlocks_spec (blocks : List Str) (l : List Item) (h : allGridBlocks blocks l = true) :
+    ∀ it ∈ l, ∃ n, it = .blk n ∧ n ∈ blocks := by
+  intro it hi
+  have := List.all_eq_true.mp h it hi
+  cases it with
+  | blk n => exact ⟨n, rfl, by simpa using this⟩
+  | con _ _ => cases this
+  | gen _ _ _ => cases this
+  | str _ => cases this
+  | tup _ _ => cases this
+
+theorem allGridCons_spec (cons : List (Str × Str)) (l : List Item) (h : allGridCons cons l = true) :
+    ∀ it ∈ l, ∃ a b, it = .con a b ∧ (a, b) ∈ cons := by
+  intro it hi
+  have := List.all_eq_true.mp h it hi
+  cases it with
+  | con a b => exact ⟨a, b, rfl, by simpa using this⟩
+  | blk _ => cases this
+  | gen _ _ _ => cases this
+  | str _ => cases this
+  | tup _ _ => cases this
+
 end Proofs.Convert
